@@ -1,6 +1,7 @@
 import FCA.Proofs.FormatsCsv
 /-
-`loadCsv` (with sniffing of the symbol set) inverts `dumpCsv` for both symbol sets.
+`loadCsvE` (with sniffing of the symbol set) inverts `dumpCsv` for both symbol sets, and more
+generally loads every RFC 4180 rendering of the table of a context.
 -/
 namespace FCA
 
@@ -8,16 +9,15 @@ namespace FCA
 def csym (asInt b : Bool) : Str :=
   if asInt then (if b then ['1'] else ['0']) else (if b then ['X'] else [])
 
-/-- the loader's cell decoding for a symbol set -/
-def csvValue (a : Bool) (s : Str) : Option Bool :=
-  if a then (if s == ['1'] then some true else if s == ['0'] then some false else none)
-  else (if s == ['X'] then some true else if s == [] then some false else none)
+/-- the csv table of a context: header (empty corner field, properties), one record per object -/
+def csvTable (asInt : Bool) (objects properties : List Str) (bools : List (List Bool)) :
+    List (List Str) :=
+  ([] :: properties) :: (objects.zip bools).map fun x => x.1 :: x.2.map (csym asInt)
 
 theorem dumpCsv_eq (asInt : Bool) (objects properties : List Str) (bools : List (List Bool)) :
     dumpCsv asInt objects properties bools =
-      (([] :: properties) ::
-        (objects.zip bools).map (fun x => x.1 :: x.2.map (csym asInt))).flatMap csvRow := by
-  rw [List.flatMap_cons, List.flatMap_map]
+      (csvTable asInt objects properties bools).flatMap csvRow := by
+  rw [csvTable, List.flatMap_cons, List.flatMap_map]
   rfl
 
 theorem csvValue_csym (a b : Bool) : csvValue a (csym a b) = some b := by
@@ -56,72 +56,44 @@ theorem csv_sniff (asInt : Bool) (r1 : List Bool) :
       · rw [List.map_cons, List.all_cons]
         cases b <;> simp [csym]
 
-theorem csv_finish (asInt a' : Bool) (objects properties : List Str) (bools : List (List Bool))
+/-- the row loop of the loader on the data records of a csv table -/
+theorem csvLoop_table (asInt a' : Bool) (objects : List Str) (bools : List (List Bool))
     (hlen : bools.length = objects.length)
     (hval : ∀ row ∈ bools, (row.map (csym asInt)).map (csvValue a') = row.map some) :
-    (if (((objects.zip bools).map (fun x => x.1 :: x.2.map (csym asInt))).any fun x => x.isEmpty) = true
-      then Except.error Err.valueError
-      else
-        if ((((objects.zip bools).map (fun x => x.1 :: x.2.map (csym asInt))).map
-            fun r => (r.headD [], (r.drop 1).map (csvValue a'))).all
-              fun x => x.2.all Option.isSome) = true then
-          Except.ok
-            ((((objects.zip bools).map (fun x => x.1 :: x.2.map (csym asInt))).map
-              fun r => (r.headD [], (r.drop 1).map (csvValue a'))).map (fun x => x.1),
-             properties,
-             (((objects.zip bools).map (fun x => x.1 :: x.2.map (csym asInt))).map
-              fun r => (r.headD [], (r.drop 1).map (csvValue a'))).map
-                (fun x => x.2.map (fun x => x.getD false)))
-        else Except.error Err.keyError) = Except.ok (objects, properties, bools) := by
-  have hparsed : (((objects.zip bools).map (fun x => x.1 :: x.2.map (csym asInt))).map
-      fun r => (r.headD [], (r.drop 1).map (csvValue a'))) =
-      (objects.zip bools).map (fun x => (x.1, x.2.map some)) := by
-    rw [List.map_map]
-    apply List.map_congr_left
-    intro x hx
-    have := hval x.2 (List.of_mem_zip (a := x.1) (b := x.2) hx).2
-    simp [this]
-  rw [hparsed]
-  have h1 : (((objects.zip bools).map (fun x => x.1 :: x.2.map (csym asInt))).any
-      fun x => x.isEmpty) = false := by
-    simp [List.any_eq_false]
-  have h2 : (((objects.zip bools).map (fun x => (x.1, x.2.map some))).all
-      fun x => x.2.all Option.isSome) = true := by
-    simp [List.all_eq_true]
-  rw [h1, h2]
-  simp only [Bool.false_eq_true, if_false, if_true, List.map_map]
-  have e1 : (objects.zip bools).map ((fun x : Str × List (Option Bool) => x.1) ∘
-      fun x => (x.1, x.2.map some)) = objects := by
-    have : ((fun x : Str × List (Option Bool) => x.1) ∘
-      fun x : Str × List Bool => (x.1, x.2.map some)) = Prod.fst := rfl
-    rw [this, List.map_fst_zip (by omega)]
-  have e2 : (objects.zip bools).map ((fun x : Str × List (Option Bool) =>
-      x.2.map (fun x => x.getD false)) ∘ fun x => (x.1, x.2.map some)) = bools := by
-    have : ((fun x : Str × List (Option Bool) => x.2.map (fun x => x.getD false)) ∘
-      fun x : Str × List Bool => (x.1, x.2.map some)) = Prod.snd := by
-      funext x; simp [Function.comp_def]
-    rw [this, List.map_snd_zip (by omega)]
-  rw [e1, e2]
+    csvLoop a' false ((objects.zip bools).map fun x => x.1 :: x.2.map (csym asInt)) =
+      .ok (objects, bools) := by
+  induction objects generalizing bools with
+  | nil =>
+    cases bools with
+    | nil => rfl
+    | cons => simp at hlen
+  | cons o os ih =>
+    cases bools with
+    | nil => simp at hlen
+    | cons r rs =>
+      have hr := hval r (by simp)
+      have h1 : (List.map (csvValue a') (r.map (csym asInt))).all Option.isSome = true := by
+        rw [hr]; simp
+      have h2 : ((r.map (csym asInt)).map fun s => (csvValue a' s).getD false) = r := by
+        have : ((r.map (csym asInt)).map fun s => (csvValue a' s).getD false) =
+            ((r.map (csym asInt)).map (csvValue a')).map (·.getD false) := by
+          simp [List.map_map, Function.comp_def]
+        rw [this, hr]; simp
+      rw [List.zip_cons_cons, List.map_cons, csvLoop, if_pos h1,
+        ih rs (by simpa using hlen) (fun row hrow => hval row (by simp [hrow])), h2]
 
-/-- csv round trip for both symbol sets, any labels (empty ones, commas, quotes, line breaks) -/
-theorem loadCsv_dumpCsv (asInt : Bool) {objects properties : List Str} {bools : List (List Bool)}
+/-- the loader on any text whose records are the csv table of a context -/
+theorem loadCsvE_of_read (asInt : Bool) {objects properties : List Str} {bools : List (List Bool)}
     (hone : objects ≠ []) (hlen : bools.length = objects.length)
-    (hrow : ∀ r ∈ bools, r.length = properties.length) :
-    loadCsv (dumpCsv asInt objects properties bools) = .ok (objects, properties, bools) := by
+    (hrow : ∀ r ∈ bools, r.length = properties.length) {text : Str}
+    (hread : csvRead text = (csvTable asInt objects properties bools, false)) :
+    loadCsvE text = .ok (objects, properties, bools) := by
   cases objects with
   | nil => contradiction
   | cons o1 os =>
   cases bools with
   | nil => simp at hlen
   | cons r1 rs =>
-  have hparse : csvParse (dumpCsv asInt (o1 :: os) properties (r1 :: rs)) =
-      some (([] :: properties) :: (o1 :: r1.map (csym asInt)) ::
-        (os.zip rs).map (fun x => x.1 :: x.2.map (csym asInt))) := by
-    rw [dumpCsv_eq, csvParse_rows]
-    · simp
-    · intro r hr
-      simp only [List.mem_cons, List.mem_map] at hr
-      rcases hr with rfl | ⟨x, _, rfl⟩ <;> simp
   obtain ⟨a', hsn, ha'⟩ := csv_sniff asInt r1
   have hval : ∀ row ∈ r1 :: rs, (row.map (csym asInt)).map (csvValue a') = row.map some := by
     intro row hr
@@ -130,10 +102,238 @@ theorem loadCsv_dumpCsv (asInt : Bool) {objects properties : List Str} {bools : 
     · have h0 : properties.length = 0 := by simpa using (hrow [] (by simp)).symm
       have : row = [] := List.eq_nil_of_length_eq_zero (by rw [hrow row hr, h0])
       subst this; rfl
-  unfold loadCsv
-  rw [hparse]
-  simp only [List.isEmpty_cons, Bool.false_eq_true, if_false, List.drop_succ_cons, List.drop_zero]
+  have hloop := csvLoop_table asInt a' (o1 :: os) (r1 :: rs) hlen hval
+  rw [List.zip_cons_cons, List.map_cons] at hloop
+  unfold loadCsvE
+  rw [hread, csvTable, List.zip_cons_cons, List.map_cons]
+  simp only []
   rw [hsn]
-  exact csv_finish asInt a' (o1 :: os) properties (r1 :: rs) hlen hval
+  simp only []
+  rw [hloop]
+
+/-- csv round trip for both symbol sets, any labels (empty ones, commas, quotes, line breaks)
+up to the reader's field size limit -/
+theorem loadCsvE_dumpCsv (asInt : Bool) {objects properties : List Str} {bools : List (List Bool)}
+    (hone : objects ≠ []) (hlen : bools.length = objects.length)
+    (hrow : ∀ r ∈ bools, r.length = properties.length)
+    (hol : ∀ o ∈ objects, o.length ≤ csvFieldLimit)
+    (hpl : ∀ p ∈ properties, p.length ≤ csvFieldLimit) :
+    loadCsvE (dumpCsv asInt objects properties bools) = .ok (objects, properties, bools) := by
+  apply loadCsvE_of_read asInt hone hlen hrow
+  rw [dumpCsv_eq, csvRead_rows]
+  · intro r hr
+    simp only [csvTable, List.mem_cons, List.mem_map] at hr
+    rcases hr with rfl | ⟨x, _, rfl⟩ <;> simp
+  · intro r hr f hf
+    simp only [csvTable, List.mem_cons, List.mem_map] at hr
+    rcases hr with rfl | ⟨x, hx, rfl⟩
+    · rcases List.mem_cons.1 hf with rfl | hf
+      · simp
+      · exact hpl f hf
+    · rcases List.mem_cons.1 hf with rfl | hf
+      · exact hol _ (List.of_mem_zip hx).1
+      · simp only [List.mem_map] at hf
+        obtain ⟨b, _, rfl⟩ := hf
+        cases asInt <;> cases b <;> simp [csym, csvFieldLimit]
+
+/-! ### an empty record after (part of) a table -/
+
+theorem csvLoop_table_blank (asInt a' bad : Bool) (objects : List Str) (bools : List (List Bool))
+    (hlen : bools.length = objects.length)
+    (hval : ∀ row ∈ bools, (row.map (csym asInt)).map (csvValue a') = row.map some)
+    (more : List (List Str)) :
+    csvLoop a' bad (((objects.zip bools).map fun x => x.1 :: x.2.map (csym asInt)) ++ [] :: more) =
+      .error "ValueError" := by
+  induction objects generalizing bools with
+  | nil =>
+    cases bools with
+    | nil => rfl
+    | cons => simp at hlen
+  | cons o os ih =>
+    cases bools with
+    | nil => simp at hlen
+    | cons r rs =>
+      have hr := hval r (by simp)
+      have h1 : (List.map (csvValue a') (r.map (csym asInt))).all Option.isSome = true := by
+        rw [hr]; simp
+      rw [List.zip_cons_cons, List.map_cons, List.cons_append, csvLoop, if_pos h1,
+        ih rs (by simpa using hlen) (fun row hrow => hval row (by simp [hrow]))]
+
+/-- the loader on a text whose records are the csv table of a context (possibly without any object)
+followed by an empty record: unpacking the empty record raises `ValueError`, whatever follows -/
+theorem loadCsvE_blank_of_read (asInt : Bool) {objects properties : List Str}
+    {bools : List (List Bool)} (hlen : bools.length = objects.length)
+    (hrow : ∀ r ∈ bools, r.length = properties.length) {text : Str} {more : List (List Str)}
+    {bad : Bool}
+    (hread : csvRead text = (csvTable asInt objects properties bools ++ [] :: more, bad)) :
+    loadCsvE text = .error "ValueError" := by
+  cases objects with
+  | nil =>
+    cases bools with
+    | cons => simp at hlen
+    | nil =>
+      unfold loadCsvE
+      rw [hread]
+      rfl
+  | cons o1 os =>
+  cases bools with
+  | nil => simp at hlen
+  | cons r1 rs =>
+  obtain ⟨a', hsn, ha'⟩ := csv_sniff asInt r1
+  have hval : ∀ row ∈ r1 :: rs, (row.map (csym asInt)).map (csvValue a') = row.map some := by
+    intro row hr
+    rcases ha' with rfl | rfl
+    · exact csvValue_row _ row
+    · have h0 : properties.length = 0 := by simpa using (hrow [] (by simp)).symm
+      have : row = [] := List.eq_nil_of_length_eq_zero (by rw [hrow row hr, h0])
+      subst this; rfl
+  have hloop := csvLoop_table_blank asInt a' bad (o1 :: os) (r1 :: rs) hlen hval more
+  rw [List.zip_cons_cons, List.map_cons, List.cons_append] at hloop
+  unfold loadCsvE
+  rw [hread, csvTable, List.zip_cons_cons, List.map_cons, List.cons_append, List.cons_append]
+  simp only []
+  rw [hsn]
+  simp only []
+  rw [hloop]
+
+/-! ### renderings of the table of a context by any RFC 4180 writer -/
+
+/-- the fields of the csv table of a context respect the reader's field size limit -/
+theorem csvTable_limit (asInt : Bool) {objects properties : List Str} {bools : List (List Bool)}
+    (hol : ∀ o ∈ objects, o.length ≤ csvFieldLimit)
+    (hpl : ∀ p ∈ properties, p.length ≤ csvFieldLimit) :
+    ∀ r ∈ csvTable asInt objects properties bools, ∀ f ∈ r, f.length ≤ csvFieldLimit := by
+  intro r hr f hf
+  simp only [csvTable, List.mem_cons, List.mem_map] at hr
+  rcases hr with rfl | ⟨x, hx, rfl⟩
+  · rcases List.mem_cons.1 hf with rfl | hf
+    · simp
+    · exact hpl f hf
+  · rcases List.mem_cons.1 hf with rfl | hf
+    · exact hol _ (List.of_mem_zip hx).1
+    · simp only [List.mem_map] at hf
+      obtain ⟨b, _, rfl⟩ := hf
+      cases asInt <;> cases b <;> simp [csym, csvFieldLimit]
+
+/-- `marked` is the csv table of the context with a quoting choice for every field and a
+terminator choice for every record, such that every record can be written -/
+def CsvRendering (asInt : Bool) (objects properties : List Str) (bools : List (List Bool))
+    (marked : List (Bool × List (Bool × Str))) : Prop :=
+  (marked.map fun r => r.2.map (·.2)) = csvTable asInt objects properties bools ∧
+    ∀ r ∈ marked, CsvRowOk r.2
+
+instance (asInt : Bool) (o p : List Str) (b : List (List Bool))
+    (marked : List (Bool × List (Bool × Str))) : Decidable (CsvRendering asInt o p b marked) := by
+  unfold CsvRendering; infer_instance
+
+theorem CsvRendering.limit {asInt : Bool} {objects properties : List Str} {bools : List (List Bool)}
+    {marked : List (Bool × List (Bool × Str))} (h : CsvRendering asInt objects properties bools marked)
+    (hol : ∀ o ∈ objects, o.length ≤ csvFieldLimit)
+    (hpl : ∀ p ∈ properties, p.length ≤ csvFieldLimit) :
+    ∀ r ∈ marked, CsvRowOk r.2 ∧ ∀ f ∈ r.2, f.2.length ≤ csvFieldLimit := by
+  intro r hr
+  refine ⟨h.2 r hr, ?_⟩
+  intro f hf
+  apply csvTable_limit asInt hol hpl (r.2.map (·.2))
+  · rw [← h.1]; exact List.mem_map_of_mem (f := fun r : Bool × List (Bool × Str) => r.2.map (·.2)) hr
+  · exact List.mem_map_of_mem (f := fun f : Bool × Str => f.2) hf
+
+/-- the library's own writer is such a rendering -/
+theorem csvRendering_dump (asInt : Bool) (objects properties : List Str) (bools : List (List Bool)) :
+    CsvRendering asInt objects properties bools
+      ((csvTable asInt objects properties bools).map fun r => (true, csvMarks r)) ∧
+    dumpCsv asInt objects properties bools =
+      csvTextQ ((csvTable asInt objects properties bools).map fun r => (true, csvMarks r)) := by
+  refine ⟨⟨?_, ?_⟩, ?_⟩
+  · simp [List.map_map, Function.comp_def, csvMarks_snd]
+  · intro r hr
+    simp only [List.mem_map] at hr
+    obtain ⟨x, hx, rfl⟩ := hr
+    apply csvMarks_ok
+    simp only [csvTable, List.mem_cons, List.mem_map] at hx
+    rcases hx with rfl | ⟨y, _, rfl⟩ <;> simp
+  · rw [dumpCsv_eq, csvText_eq]
+
+/-- the loader returns the context from every rendering of its table -/
+theorem loadCsvE_rendering (asInt : Bool) {objects properties : List Str} {bools : List (List Bool)}
+    (hone : objects ≠ []) (hlen : bools.length = objects.length)
+    (hrow : ∀ r ∈ bools, r.length = properties.length)
+    (hol : ∀ o ∈ objects, o.length ≤ csvFieldLimit)
+    (hpl : ∀ p ∈ properties, p.length ≤ csvFieldLimit)
+    {marked : List (Bool × List (Bool × Str))}
+    (hm : CsvRendering asInt objects properties bools marked) :
+    loadCsvE (csvTextQ marked) = .ok (objects, properties, bools) := by
+  apply loadCsvE_of_read asInt hone hlen hrow
+  rw [csvRead_textQ marked (hm.limit hol hpl), hm.1]
+
+/-- … and refuses it with `ValueError` when a blank line follows (anything may come after it) -/
+theorem loadCsvE_rendering_blank (asInt : Bool) {objects properties : List Str}
+    {bools : List (List Bool)} (hlen : bools.length = objects.length)
+    (hrow : ∀ r ∈ bools, r.length = properties.length)
+    (hol : ∀ o ∈ objects, o.length ≤ csvFieldLimit)
+    (hpl : ∀ p ∈ properties, p.length ≤ csvFieldLimit)
+    {marked : List (Bool × List (Bool × Str))}
+    (hm : CsvRendering asInt objects properties bools marked) (crlf : Bool) (rest : Str) :
+    loadCsvE (csvTextQ marked ++ (csvTerm crlf ++ rest)) = .error "ValueError" := by
+  apply loadCsvE_blank_of_read asInt hlen hrow (more := (csvRead rest).1) (bad := (csvRead rest).2)
+  rw [csvRead_textQ_append marked (hm.limit hol hpl), hm.1, csvRead_blank]
+
+/-- … also when the last record has no terminator -/
+theorem loadCsvE_rendering_open (asInt : Bool) {objects properties : List Str}
+    {bools : List (List Bool)} (hone : objects ≠ []) (hlen : bools.length = objects.length)
+    (hrow : ∀ r ∈ bools, r.length = properties.length)
+    (hol : ∀ o ∈ objects, o.length ≤ csvFieldLimit)
+    (hpl : ∀ p ∈ properties, p.length ≤ csvFieldLimit)
+    {init : List (Bool × List (Bool × Str))} {t : Bool} {last : List (Bool × Str)}
+    (hm : CsvRendering asInt objects properties bools (init ++ [(t, last)])) :
+    loadCsvE (csvTextQ init ++ csvBodyQ last) = .ok (objects, properties, bools) := by
+  apply loadCsvE_of_read asInt hone hlen hrow
+  have hlim := hm.limit hol hpl
+  rw [csvRead_textQ_open init last (fun r hr => hlim r (by simp [hr]))
+    (hlim (t, last) (by simp)).1 (hlim (t, last) (by simp)).2, ← hm.1]
+  simp
+
+/-! ### the field size limit is needed -/
+
+theorem csvRow_cons_ne {o : Str} (h : o ≠ []) (l : List Str) :
+    ∃ tail, csvRow (o :: l) = csvFieldQ false o ++ tail := by
+  have hne : ¬ (o :: l) = [[]] := by simp [h]
+  rw [csvRow_eq, csvMarks, if_neg hne, csvRowQ_eq]
+  cases l with
+  | nil => exact ⟨csvTerm true, rfl⟩
+  | cons x xs =>
+    refine ⟨',' :: csvBodyQ ((x :: xs).map fun f => (false, f)) ++ csvTerm true, ?_⟩
+    rw [List.map_cons, List.map_cons, csvBodyQ_cons_cons]
+    simp
+
+/-- an object label longer than `csv.field_size_limit()` makes `Csv.loads(Csv.dumps(…))` fail with
+`_csv.Error` -/
+theorem loadCsvE_object_too_long (asInt : Bool) {o1 : Str} {os properties : List Str}
+    {r1 : List Bool} {rs : List (List Bool)} (hpl : ∀ p ∈ properties, p.length ≤ csvFieldLimit)
+    (ho : csvFieldLimit < o1.length) :
+    loadCsvE (dumpCsv asInt (o1 :: os) properties (r1 :: rs)) = .error "Error" := by
+  have hne : o1 ≠ [] := by intro h; subst h; simp at ho
+  obtain ⟨tail, htail⟩ := csvRow_cons_ne hne (r1.map (csym asInt))
+  have hread : csvRead (dumpCsv asInt (o1 :: os) properties (r1 :: rs)) =
+      ([[] :: properties], true) := by
+    rw [dumpCsv_eq, csvTable, List.zip_cons_cons, List.map_cons, List.flatMap_cons,
+      List.flatMap_cons, htail, List.append_assoc]
+    have e : csvRow ([] :: properties) = csvTextQ [(true, csvMarks ([] :: properties))] := by
+      rw [csvRow_eq]; simp [csvTextQ]
+    rw [e, csvRead_textQ_append, csvRead_eq, csvFlat_init_field_too_long false o1 ho]
+    · simp [csvMarks_snd]
+    · intro r hr
+      simp only [List.mem_singleton] at hr
+      subst hr
+      refine ⟨csvMarks_ok (by simp), ?_⟩
+      intro f hf
+      have : f.2 ∈ (csvMarks ([] :: properties)).map (·.2) := List.mem_map_of_mem hf
+      rw [csvMarks_snd] at this
+      rcases List.mem_cons.1 this with h | h
+      · rw [h]; simp
+      · exact hpl _ h
+  unfold loadCsvE
+  rw [hread]
+  rfl
 
 end FCA
